@@ -96,9 +96,11 @@ def check_sensors(w, rep):
                     rep.fail("C12.sensors", inst, "the simulated field's heading differs from the declination the estimator subtracts, the yaw estimate converges to a biased value: %s" % det, where=W("measure_mag"))
                 else:
                     rep.incomplete("C12.sensors", inst, "cannot decide: %s" % det, where=W("measure_mag"))
-        est_mag = [g for g in cm.FunctionVal.registry if g.fname == "correct_mag" and g.module == MRP]
-        if est_mag:
-            g = est_mag[-1]
+        emod = w.mod(MRP)
+        if "correct_mag" not in emod:
+            raise AnchorMissing("%s.correct_mag" % MRP)
+        okm, g = guarded(w, rep, "C12.API", "mrp.correct_mag() for the innovation", lambda: w.callf(emod["correct_mag"]))
+        if okm and isinstance(g, cm.FunctionVal) and g.in_names and g.out_names and {"x", "y_b", "decl"} <= set(g.in_names) and "r_mag" in g.out_names:
             I = dict(zip(g.in_names, g.ins))
             O = dict(zip(g.out_names, g.outs))
             Rn = w.call(w.elem(Mr, w.sl(I["x"], 0, 3)), "to_Matrix")
